@@ -115,7 +115,8 @@ def run_in(names, tier, res_path, results, snap):
 if sys.argv[1] == 'import':
     prop, src = sys.argv[2], sys.argv[3]
     letters = sys.argv[4] if len(sys.argv) > 4 else 'ab'
-    confirm(prop, src, '', letters[0]); confirm(prop, src, '2', letters[1])
+    confirm(prop, src, '', letters[0])
+    if len(letters) > 1: confirm(prop, src, '2', letters[1])
 else:
     args = sys.argv[2:]
     tier = 'quick'
